@@ -193,9 +193,10 @@ class RawStructDef(TypeDef, ParsableDef):
                     raise GuppyError(err)
 
         # Ensure that functions don't override struct fields
-        if overridden := used_field_names.intersection(used_func_names.keys()):
-            x = overridden.pop()
-            raise GuppyError(DuplicateFieldError(used_func_names[x], self.name, x))
+        # (report the first such function in definition order, not an arbitrary set element)
+        for x in used_func_names:
+            if x in used_field_names:
+                raise GuppyError(DuplicateFieldError(used_func_names[x], self.name, x))
 
         return ParsedStructDef(self.id, self.name, cls_def, params, fields)
 
